@@ -595,12 +595,61 @@ class CastUnmarshaller(AbstractUnmarshaller[T]):
         return self.caster(decoded)
 
 
-PathUnmarshaller = CastUnmarshaller[pathlib.Path]
 MappingUnmarshaller = CastUnmarshaller[tp.Mapping]
 IterableUnmarshaller = CastUnmarshaller[tp.Iterable]
 
+PathT = tp.TypeVar("PathT", bound=pathlib.PurePath)
+
+
+class PathUnmarshaller(AbstractUnmarshaller[PathT], tp.Generic[PathT]):
+    """Unmarshaller that converts an input to a [`pathlib.PurePath`][] (or subclasses).
+
+    Note:
+        A path is always text over-the-wire, so we only decode bytes-like inputs,
+        we never evaluate the text (`"1"` is the path `1`, not the number).
+
+    See Also:
+        - [`typelib.serdes.decode`][]
+    """
+
+    def __call__(self, val: tp.Any) -> PathT:
+        """Unmarshal a value into the bound `PathT` type.
+
+        Args:
+            val: The input value to unmarshal.
+        """
+        decoded = serdes.decode(val)
+        if isinstance(decoded, self.t):
+            return decoded
+        return self.t(decoded)
+
+
 EnumT = tp.TypeVar("EnumT", bound=enum.Enum)
-EnumUnmarshaller = CastUnmarshaller[EnumT]
+
+
+class EnumUnmarshaller(AbstractUnmarshaller[EnumT], tp.Generic[EnumT]):
+    """Unmarshaller that converts an input to a member of an [`enum.Enum`][].
+
+    Note:
+        We look the member up by the value as given (decoding bytes-like inputs),
+        and only if that fails do we attempt to load the text into a Python value.
+
+    See Also:
+        - [`typelib.serdes.load`][]
+    """
+
+    def __call__(self, val: tp.Any) -> EnumT:
+        """Unmarshal a value into the bound `EnumT` type.
+
+        Args:
+            val: The input value to unmarshal.
+        """
+        if isinstance(val, self.t):
+            return val
+        decoded = serdes.decode(val)
+        with contextlib.suppress(ValueError, TypeError):
+            return self.t(decoded)
+        return self.t(serdes.load(decoded))
 
 
 LiteralT = tp.TypeVar("LiteralT")
